@@ -708,6 +708,29 @@ def loops_program():
                 ["ret", var("d")],
             ],
         ),
+        # a coroutine primed before the variable its selector is conditioned on is first bound:
+        # prod starts cons, advances it to its first yield, and only then loops over k, sending
+        fn(
+            "cons",
+            ["c"],
+            [
+                ["bind", "d", V],
+                ["while", [["yield", var("d"), "item"], use("item")]],
+                ["ret", var("d")],
+            ],
+        ),
+        fn(
+            "prod",
+            ["a"],
+            [
+                ["bind", "g", ["call", "cons", [V]]],
+                ["expr", ["next", "g"]],
+                ["for", "k", [["bind", "r", ["mcall", "g", "send", [var("k")]]], use("r")], []],
+                ["expr", ["mcall", "g", "close", []]],
+                ["ret", var("a")],
+            ],
+            mutable=["g"],
+        ),
     ]
     return {"functions": F}
 
